@@ -193,7 +193,11 @@ func (response *Response) Validate(ctx context.Context, opts ...ValidationOption
 		return errors.New("a short description of the response is required")
 	}
 	if vo := getValidationOptions(ctx); !vo.examplesValidationDisabled {
-		vo.examplesValidationAsReq, vo.examplesValidationAsRes = false, true
+		// examples below here are read in this direction: the options in the context may be absent or
+		// shared with the rest of the document, so the direction goes into a copy of them
+		directed := *vo
+		directed.examplesValidationAsReq, directed.examplesValidationAsRes = false, true
+		ctx = context.WithValue(ctx, validationOptionsKey{}, &directed)
 	}
 
 	if content := response.Content; content != nil {
